@@ -12,6 +12,14 @@ oracle (on the implementation, exact in Q): every member is fixed by every group
   the reference action of refs.py; the rank of the family equals its size; the size equals the
   character formula (1/|G|) sum_g #fixedpixels(g) tr(g)^k det(g)^p evaluated independently here.
   Invariant + independent + size = dimension of the invariant subspace gives completeness.
+converse ("reachable by weighting this family, and nothing non-equivariant is", theorems
+  conv_equivariant_iff_filter_invariant / conv_equivariant_iff_mem_span_family): on a torus with
+  extent >= dilated filter side, TORUS padding, through the real geom.convolve and the real
+  times_group_element, exact integers: (a) for a filter C that is NOT G-invariant (one-hot entry with
+  a non-trivial orbit, or a random integer filter) and a one-hot image A, for EVERY g in G:
+  convolve(g.A, C) == g.convolve(A, C)  iff  g.C == C (reference action); (b) for a random integer
+  combination of the generated family and a random integer image, equality for every g in G.
+  Both sides are also compared with the Lean model (driver ops c04.conv spec on g.A, c01.rhs).
 """
 from __future__ import annotations
 
@@ -23,7 +31,7 @@ from fractions import Fraction
 import numpy as np
 
 import refs
-from common import Ctx, DriverReject, log
+from common import Ctx, DriverReject, jarr, log, unarr
 
 TOL = 1e-5
 PRIME = 2147483629  # < 2^31, products fit in int64
@@ -446,6 +454,157 @@ def run_operator_lists(ctx: Ctx, geom, d):
             ctx.violation("correspondence", f"operator list '{which}' differs from the Lean model", case)
 
 
+
+# ---------------------------------------------------------------------------------------------
+# converse: A -> A * C is G-equivariant  iff  C is G-invariant (iff C in span of the family)
+
+
+def _lib_act(geom, jnp, arr, d, p, g):
+    out = np.asarray(geom.times_group_element(d, jnp.array(arr, dtype=jnp.float32), p, np.asarray(g)))
+    r = np.rint(out).astype(np.int64)
+    if not np.array_equal(r.astype(out.dtype), out):
+        raise AssertionError("non-integer action output")
+    return r
+
+
+def _lib_conv(geom, jnp, d, img, flt, rd):
+    """img: spatial + tensor, flt: spatial + tensor; single batch / channel; fully toroidal, TORUS padding"""
+    out = geom.convolve(d, jnp.array(img[None, None], dtype=jnp.float32), jnp.array(flt[None, None], dtype=jnp.float32),
+                        (True,) * d, (1,) * d, "TORUS", None, (rd,) * d)
+    out = np.asarray(out)
+    r = np.rint(out).astype(np.int64)
+    if not np.array_equal(r.astype(out.dtype), out):
+        raise AssertionError("non-integer convolution output")
+    return r[0, 0]
+
+
+def _ref_conv(d, img, flt, kI, rd):
+    """independent direct sum on the torus: out[i][t ++ t'] = sum_a img[(i + (a - c) rd) mod N][t] flt[a][t']"""
+    N = img.shape[:d]
+    M = flt.shape[:d]
+    kF = flt.ndim - d
+    out = np.zeros(tuple(N) + (d,) * (kI + kF), dtype=np.int64)
+    for a in itertools.product(*[range(m) for m in M]):
+        sh = np.asarray(img)
+        for ax in range(d):
+            sh = np.roll(sh, -((a[ax] - (M[ax] - 1) // 2) * rd), axis=ax)  # sh[i] = img[i + (a - c) rd]
+        out += sh.reshape(tuple(N) + (d,) * kI + (1,) * kF) * np.asarray(flt[a]).reshape((1,) * (d + kI) + (d,) * kF)
+    return out
+
+
+def converse_one(ctx: Ctx, geom, jnp, base, kind, C, A, expect_all, budget):
+    """for every g of the group: the real equivariance defect of A -> A * C on the image A against the
+    invariance of C under the reference action.  On a one-hot image the two coincide for each g
+    (conv_equivariant_iff_filter_invariant); on any image g.C == C implies equality."""
+    d, M, k, p = base["D"], base["M"], base["k"], base["parity"]
+    N, rd, kI, pI = base["N"], base["rhs_dilation"], base["image_k"], base["image_parity"]
+    ops = [np.asarray(g, dtype=np.int64) for g in base["operators"]]
+    onehot_img = int(np.count_nonzero(A)) == 1
+    case = dict(base, kind=kind, filter=jarr(C), image=jarr(A))
+    invs = [bool(np.array_equal(refs.act(C, d, p, g), C)) for g in ops]
+    nontriv = len(ops) > 1 and bool(np.any(C != 0)) and ((not all(invs)) if not expect_all else True)
+    ctx.case(("converse", kind, base["group"], d, M, k, p, N, rd, kI, pI, case["filter"]["data"], case["image"]["data"]),
+             nontriv, sample={k_: case[k_] for k_ in ("group", "D", "M", "k", "parity", "N", "kind")})
+    ctx.hist("converse_kind", kind)
+    ctx.hist("converse_moving_g", sum(1 for v in invs if not v))
+    if expect_all and not all(invs):
+        bad = next(g for g, v in zip(ops, invs) if not v)
+        ctx.violation("oracle", "a weighting of the generated family is not fixed by a group element",
+                      dict(case, g=bad.astype(int).tolist()))
+        return
+    conv0 = _lib_conv(geom, jnp, d, A, C, rd)
+    if not np.array_equal(conv0, _ref_conv(d, A, C, kI, rd)):
+        # the convolution itself is C04's business; recorded only
+        ctx.notes["converse_conv_differs_from_reference"] = ctx.notes.get("converse_conv_differs_from_reference", 0) + 1
+    budget = dict(budget)
+    margs = dict(d=d, torus=[True] * d, stride=[1] * d, rd=[rd] * d, ld=[1] * d, padding="TORUS", filter=jarr(C[None, None]))
+    for g, inv in zip(ops, invs):
+        gcase = dict(case, g=g.astype(int).tolist(), filter_fixed_by_g=inv)
+        lhs = _lib_conv(geom, jnp, d, _lib_act(geom, jnp, A, d, pI, g), C, rd)
+        rhs = _lib_act(geom, jnp, conv0, d, pI + p, g)
+        eq = lhs.shape == rhs.shape and bool(np.array_equal(lhs, rhs))
+        if inv and not eq:
+            ctx.violation("oracle", "g.C == C but convolve(g.A, C) != g.convolve(A, C): an invariant filter "
+                          "(a weighting of the family) gives a non-equivariant map", gcase)
+            continue
+        if (not inv) and eq and onehot_img:
+            ctx.violation("oracle", "g.C != C but convolve(g.A, C) == g.convolve(A, C) on a one-hot image: "
+                          "a non-invariant filter passes as equivariant", gcase)
+            continue
+        # the Lean model on the same inputs (within the budget: g != identity, per value of `inv`)
+        if budget.get(inv, 0) > 0 and not np.array_equal(g, np.eye(d, dtype=np.int64)):
+            budget[inv] -= 1
+            try:
+                gA = refs.act(A, d, pI, g)
+                ml = unarr(ctx.driver.call("c04.conv", which="spec", image=jarr(gA[None, None]), **margs))[0, 0]
+                mr = unarr(ctx.driver.call("c01.rhs", M=g.astype(int).tolist(), p_image=pI, p_filter=p,
+                                           image=jarr(A[None, None]), **margs))[0, 0]
+            except DriverReject as e:
+                ctx.violation("correspondence", "the Lean model rejects the torus configuration", dict(gcase, model_rejects=str(e)))
+                continue
+            if ml.shape != lhs.shape or not np.array_equal(ml, lhs):
+                ctx.violation("correspondence", "convolve(g.A, C): code differs from the Lean convSpec", gcase)
+            if mr.shape != rhs.shape or not np.array_equal(mr, rhs):
+                ctx.violation("correspondence", "g.convolve(A, C): code differs from the Lean tge of convSpec", gcase)
+            if onehot_img and bool(np.array_equal(ml, mr)) != inv:
+                ctx.violation("correspondence", "Lean model: equivariance on the one-hot image does not coincide with "
+                              "g.C == C (would contradict conv_equivariant_iff_filter_invariant)", gcase)
+
+
+def run_converse(ctx: Ctx, geom, jnp, gname, ops, d, M, k, p, N, rd, kI, budget):
+    rng = ctx.rng
+    pI = int(rng.integers(0, 2))
+    fshape = (M,) * d + (d,) * k
+    ishape = (N,) * d + (d,) * kI
+    base = {"converse": True, "group": gname, "operators": [np.asarray(g).astype(int).tolist() for g in ops],
+            "D": d, "M": M, "k": k, "parity": p, "N": N, "rhs_dilation": rd, "image_k": kI, "image_parity": pI}
+
+    def delta_image():
+        A = np.zeros(ishape, dtype=np.int64)
+        idx = tuple(int(rng.integers(0, s)) for s in ishape)
+        A[idx] = int(rng.choice([1, -1, 2]))
+        return A
+
+    # (a) non-invariant filters: a one-hot entry with a non-trivial orbit (if any), and a random integer filter
+    entries = list(np.ndindex(*fshape))
+    onehot = None
+    for i in rng.permutation(len(entries)):
+        C = np.zeros(fshape, dtype=np.int64)
+        C[entries[int(i)]] = 1
+        if any(not np.array_equal(refs.act(C, d, p, g), C) for g in ops):
+            onehot = C
+            break
+    if onehot is not None:
+        converse_one(ctx, geom, jnp, base, "one-hot-filter", onehot, delta_image(), False, budget)
+    converse_one(ctx, geom, jnp, base, "random-filter", rng.integers(-2, 3, size=fshape).astype(np.int64),
+                 delta_image(), False, {})
+    # (b) a random integer weighting of the generated family
+    vecs, _ = impl_family(geom, ops, d, M, k, p)
+    prim = [rationalise(v) for v in vecs]
+    if prim and all(isinstance(v, tuple) for v in prim):
+        w = rng.integers(-3, 4, size=len(prim))
+        if not np.any(w):
+            w[int(rng.integers(0, len(prim)))] = 1
+        C = sum(int(wi) * np.array(v, dtype=np.int64) for wi, v in zip(w, prim)).reshape(fshape)
+        converse_one(ctx, geom, jnp, base, "family-weighting", C, delta_image(), True, {})
+        converse_one(ctx, geom, jnp, base, "family-weighting-random-image", C,
+                     rng.integers(-2, 3, size=ishape).astype(np.int64), True, budget)
+        # weighting + a non-invariant perturbation: equivariance is lost exactly at the g that move the perturbation
+        if onehot is not None:
+            converse_one(ctx, geom, jnp, base, "family-plus-one-hot", C + 5 * onehot, delta_image(), False, {})
+    else:
+        ctx.hist("converse_empty_or_irrational_family", True)
+
+
+def converse_grid(tier):
+    # (group, d, M, k, p, N, rd, kI)
+    g = [("B", 2, 3, 0, 0, 3, 1, 0), ("B", 2, 3, 1, 0, 4, 1, 0), ("C4", 2, 3, 1, 1, 3, 1, 1),
+         ("C2", 2, 3, 0, 0, 5, 2, 1), ("SO", 2, 3, 0, 1, 4, 1, 0), ("B", 3, 3, 0, 0, 3, 1, 0)]
+    if tier != "quick":
+        g += [("B", 2, 3, 2, 0, 3, 1, 1), ("B", 2, 5, 1, 1, 5, 1, 0), ("B", 2, 3, 1, 1, 6, 2, 1), ("C4", 2, 5, 0, 0, 6, 1, 1),
+              ("B", 3, 3, 1, 0, 3, 1, 0), ("SO", 3, 3, 0, 1, 4, 1, 1), ("C3", 3, 3, 1, 0, 3, 1, 0), ("C2", 3, 3, 1, 1, 5, 2, 0)]
+    return g
+
 # ---------------------------------------------------------------------------------------------
 
 
@@ -466,13 +625,19 @@ def run(ctx: Ctx):
         "parities; every configuration of the grid is run (exhaustive over the grid, no sampling). "
         "A family case is non-trivial when |G| > 1 and 0 < dim(invariants) < M^D * D^k; bank cases "
         "when more than one block type is non-empty; action cases when g != identity and M > 1. "
-        "Cases whose expected family is empty are counted in empty_family_expected_cases."
+        "Cases whose expected family is empty are counted in empty_family_expected_cases. "
+        "Converse cases (group, D, M, k, parity, torus extent N >= dilated side, dilation, image order): per case a "
+        "one-hot filter with a non-trivial orbit, a random integer filter, a random integer weighting of the real "
+        "family (one-hot and random integer image) and weighting + 5 * one-hot, each checked for EVERY g of the group; "
+        "non-trivial when |G| > 1, the filter is non-zero and (for the non-invariant kinds) some g moves it."
     )
     ctx.assumptions = [
         "float32 group sums of 0/±1 basis images are exact; the later rescalings (max-abs, normalize, rectify) "
         "are undone by dividing by the first non-zero entry and rationalising with denominators <= 1024 "
         f"(tolerance {TOL}); a family that is not rational up to scale is decided in floating point",
-        "the clause 'every translation-equivariant linear map is a convolution' is not mechanised (out of scope)",
+        "converse clause: proved and tested for convolutional maps A -> A * C on a full torus (extent >= dilated filter "
+        "side); the classical fact that every translation-equivariant linear map with support in the filter window IS "
+        "such a convolution is stated in Lean (C03Converse) but only partly mechanised",
     ]
     ctx.trusted_extra = [
         "np.unique(axis=0), jnp.argmax/sign, jax.vmap, einsum inside times_group_element (modelled, validated differentially)",
@@ -524,6 +689,12 @@ def run(ctx: Ctx):
             run_bank(ctx, geom, gname, groups[gname], d, M, ks, [0, 1])
     run_bank(ctx, geom, "B", groups_for(geom, 2)["B"], 2, 3, [1], [1])
     run_bank(ctx, geom, "B", groups_for(geom, 2)["B"], 2, 1, [1], [0, 1])  # no filter at all: rejected
+    # converse: equivariance of A -> A * C under G  iff  C is G-invariant (a weighting of the family)
+    import jax.numpy as jnp
+    t_conv = time.time()
+    for (gname, d, M, k, p, N, rd, kI) in converse_grid(ctx.tier):
+        run_converse(ctx, geom, jnp, gname, groups_for(geom, d)[gname], d, M, k, p, N, rd, kI, {True: 1, False: 1})
+    log(f"[C03] converse cases done in {time.time() - t_conv:.0f}s")
     # negative control for the oracle: a list that is not closed is not covered by the property
     rot = np.array([[0, -1], [1, 0]], dtype=np.int64)
     ctl = run_config(ctx, geom, "nonclosed", [np.eye(2, dtype=np.int64), rot], 2, 3, 1, 0, control=True)
@@ -540,7 +711,14 @@ def replay(ctx: Ctx, rep: dict):
     case = rep.get("case", {})
     ctx.rule = "replay of one stored case"
     ops = [np.asarray(g, dtype=np.int64) for g in case.get("operators", [])]
-    if "Ms" in case:
+    if case.get("converse"):
+        import jax.numpy as jnp
+
+        base = {k_: case[k_] for k_ in ("converse", "group", "operators", "D", "M", "k", "parity", "N", "rhs_dilation",
+                                        "image_k", "image_parity")}
+        C = unarr(case["filter"]); A = unarr(case["image"])
+        converse_one(ctx, geom, jnp, base, case["kind"], C, A, case["kind"].startswith("family-weighting"), {True: 1, False: 1})
+    elif "Ms" in case:
         run_bank(ctx, geom, case["group"], ops, case["D"], case["Ms"][0], case["ks"], case["parities"])
     elif "g" in case:
         run_action(ctx, geom, case["D"], case["M"], case["k"], case["parity"], np.asarray(case["g"]))
